@@ -77,7 +77,10 @@ func expectDecl(out map[string]*schema_j5pb.RootSchema, pkg, schemaName string, 
 		e := &schema_j5pb.Enum{Name: schemaName, Description: desc, Prefix: prefix}
 		e.Options = append(e.Options, &schema_j5pb.Enum_Option{Name: "UNSPECIFIED", Number: 0})
 		for i, o := range d.Options {
-			e.Options = append(e.Options, &schema_j5pb.Enum_Option{Name: o.Name, Number: o.Num(i), Description: o.Desc})
+			e.Options = append(e.Options, &schema_j5pb.Enum_Option{Name: o.Name, Number: o.Num(i), Description: o.Desc, Info: o.Info})
+		}
+		for _, inf := range d.Info {
+			e.Info = append(e.Info, &schema_j5pb.Enum_OptionInfoField{Name: inf.Name, Label: inf.Label, Description: inf.Desc})
 		}
 		out[pkg+"/"+schemaName] = &schema_j5pb.RootSchema{Type: &schema_j5pb.RootSchema_Enum{Enum: e}}
 	case DObject:
